@@ -46,6 +46,9 @@ MUTANTS = [
     dict(id="m17_default_written_first", prop="C17", file=BE, note="thread-local selection publishes the default first and rolls it back afterwards (race window)",
          old="        cls._THREAD_LOCAL_DATA.backend = backend\n        if not local_threadsafe:\n            cls._default_backend = backend.backend_name\n            cls._backend = backend",
          new="        previous = cls._backend\n        cls._backend = backend\n        cls._THREAD_LOCAL_DATA.backend = backend\n        if local_threadsafe:\n            cls._backend = previous\n        else:\n            cls._default_backend = backend.backend_name"),
+    dict(id="m17_static_subset", prop="C17", file=BE, note="a few hot functions (tensor, dot, reshape) are bound statically to the backend current at import time 'for speed'",
+         old="        for name in cls._attributes:\n            if hasattr(cls, name):\n                delattr(cls, name)\n            setattr(cls, name, dynamically_dispatched_class_attribute(name))\n\n    @classmethod\n    def use_static_dispatch(cls):",
+         new="        for name in cls._attributes:\n            if hasattr(cls, name):\n                delattr(cls, name)\n            setattr(cls, name, dynamically_dispatched_class_attribute(name))\n        for name in (\"tensor\", \"dot\", \"reshape\"):\n            if name in cls._functions:\n                setattr(cls, name, staticmethod(getattr(cls.current_backend(), name)))\n\n    @classmethod\n    def use_static_dispatch(cls):"),
     # ------------------------------------------------------------------ C16
     dict(id="m16_tucker_init_drops_rng", prop="C16", file="tensorly/decomposition/_tucker.py", note="random tucker init draws from the global RNG",
          old="        rng = tl.check_random_state(random_state)\n        core = tl.tensor(", new="        rng = tl.check_random_state(None)\n        core = tl.tensor("),
